@@ -307,6 +307,8 @@ def _expected_token(entry):
 
 
 def check_case(ctx: Ctx, c: dict):
+    if c.get("k") == "cli-stress":
+        return cli_stress(ctx, c)
     d = ctx.driver("drv_e2e")
     td = tempfile.mkdtemp(prefix="vc08")
     clock = Clock()
@@ -514,9 +516,123 @@ def _downscale_aware(ctx, c, req, token, size, mode, cfg, spec, iid, entry, is_f
 
 
 # ---------------------------------------------------------------------------------------------
+# thorough tier: concurrently running CLI processes on ONE terminal (one pty) and one session database
+# ---------------------------------------------------------------------------------------------
+def cli_stress(ctx: Ctx, c: dict):
+    """N `python -m tupimage.cli display` processes share one controlling tty (so one terminal id, one
+    session database) and print to that tty too, so the master side sees ONE totally ordered stream of
+    graphics commands and placeholder prints.  Each pool image is requested with its own geometry
+    (cols x rows), so a printed rectangle identifies the image it must show."""
+    import pty
+    import select
+    import subprocess
+    import sys
+    import termios
+    import fcntl
+    import struct
+    from .common import REPO
+    td = tempfile.mkdtemp(prefix="vc08s")
+    try:
+        pool = _make_pool(td, c["pool"])
+        geoms = {}
+        for i, e in enumerate(pool):
+            geoms[(1 + i % 4, 2 + i)] = _expected_token(e)[0]      # (rows, cols) -> token
+        jobs = []
+        for p in range(c["procs"]):
+            rng = __import__("random").Random(c["seed"] * 100 + p)
+            seq = [rng.randrange(len(pool)) for _ in range(c["per_proc"])]
+            jobs.append(seq)
+        script = ("import sys, os, subprocess\n"
+                  "jobs = %r\npaths = %r\n"
+                  "ps = []\n"
+                  "for seq in jobs:\n"
+                  "    cmd = ';'.join(f'{sys.executable} -m tupimage.cli display --out-display /dev/tty --use-line-feeds no -r {1 + i %% 4} -c {2 + i} {paths[i]}' for i in seq)\n"
+                  "    ps.append(subprocess.Popen(cmd, shell=True, cwd=%r))\n"
+                  "rc = [p.wait() for p in ps]\n"
+                  "sys.exit(1 if any(rc) else 0)\n") % (jobs, [e["path"] for e in pool], str(REPO))
+        env = {k: v for k, v in os.environ.items() if not (k.startswith("TUPIMAGE_") or k.startswith("SSH_") or k in ("TMUX", "VERIF_IN_PTY"))}
+        env.update(TERM="xterm-kitty", WINDOWID="7", TUPIMAGE_CONFIG="DEFAULT", TUPIMAGE_ID_DATABASE_DIR=os.path.join(td, "state"),
+                   TUPIMAGE_ID_SPACE=c["space"], TUPIMAGE_ID_SUBSPACE=c["sub"], TUPIMAGE_UPLOAD_METHOD=c["method"], PYTHONPATH=str(REPO))
+        pid, master = pty.fork()
+        if pid == 0:
+            attrs = termios.tcgetattr(0)
+            attrs[1] &= ~termios.OPOST
+            attrs[3] &= ~(termios.ECHO | termios.ICANON)
+            termios.tcsetattr(0, termios.TCSANOW, attrs)
+            os.execve(sys.executable, [sys.executable, "-c", script], env)
+        fcntl.ioctl(master, termios.TIOCSWINSZ, struct.pack("HHHH", 50, 120, 960, 800))
+        data = bytearray()
+        status = None
+        t_end = __import__("time").time() + 240
+        while True:
+            r, _, _ = select.select([master], [], [], 0.2)
+            eof = False
+            if r:
+                try:
+                    chunk = os.read(master, 1 << 16)
+                    data += chunk
+                    eof = not chunk
+                except OSError:
+                    eof = True
+            if eof or not r:
+                w, st = os.waitpid(pid, os.WNOHANG if not eof else 0)
+                if w == pid:
+                    status = st
+                    break
+            if __import__("time").time() > t_end:
+                os.kill(pid, 9)
+                raise RuntimeError("cli stress timed out")
+        os.close(master)
+        ctx.count("cli-processes", c["procs"])
+        if os.waitstatus_to_exitcode(status) != 0:
+            ctx.violation("a concurrently running CLI process failed", c, {"exit": os.waitstatus_to_exitcode(status), "tail": bytes(data[-300:]).decode("utf-8", "replace")},
+                          key="cli-process-failed")
+        # split the ordered stream into graphics commands and text
+        spec = SpecTerminal("tty")
+        d = ctx.driver("drv_e2e")
+        pos = 0
+        buf = bytes(data)
+        while pos < len(buf):
+            k = buf.find(b"\x1b_G", pos)
+            text = buf[pos: k if k >= 0 else len(buf)]
+            if text:
+                for (iid, pid_), cells in decode_placeholders(_printable(text)).items():
+                    rows = 1 + max(r for r, _ in cells)
+                    cols = 1 + max(cc for _, cc in cells)
+                    ctx.count("cli-prints")
+                    tok = geoms.get((rows, cols))
+                    if tok is None:
+                        ctx.mismatch("cli printed an unexpected geometry", c, [rows, cols], sorted(geoms))
+                        continue
+                    r = d.ask(f"printok 1024 {20 * 1024 * 1024} {3600 * 1000000} {iid} {tok} {rows} {cols} 0 {spec.wire_log()}")
+                    if not r.startswith("1"):
+                        ctx.violation("concurrent CLI processes: placeholder printed for an image the terminal does not hold", c,
+                                      {"printed_id": iid, "geometry": [rows, cols], "expected": tok, "terminal_holds": r.split(" ", 1)[1]},
+                                      key="cli-" + _vkey(None, r.split(" ", 1)[1], tok))
+            if k < 0:
+                break
+            e = buf.find(b"\x1b\\", k)
+            if e < 0:
+                break
+            spec.feed(buf[k: e + 2], 0, lambda *a: None)
+            pos = e + 2
+    finally:
+        shutil.rmtree(td, ignore_errors=True)
+
+
+def _printable(b: bytes) -> bytes:
+    return b.decode("utf-8", "ignore").encode("utf-8")
+
+
+# ---------------------------------------------------------------------------------------------
 def cases(ctx: Ctx):
     rng = ctx.rng
-    n = 40 if ctx.quick else 300
+    if not ctx.quick:
+        for procs, space, sub in [(2, "8bit", "5:7"), (3, "8bit", "5:8"), (4, "16bit", "1:2"), (4, "32bit", "0:256"), (3, "8bit", "9:11")]:
+            for method in ("direct", "file"):
+                yield dict(k="cli-stress", procs=procs, per_proc=3, space=space, sub=sub, method=method, seed=rng.randrange(1000),
+                           pool=[["png", 8, 8, rng.randrange(1 << 30)] for _ in range(4)])
+    n = 600 if ctx.quick else 6000
     for i in range(n):
         nterm = rng.choice([1, 1, 2, 3])
         space, sub = rng.choice([("8bit", "5:7"), ("8bit", "1:4"), ("16bit", "1:2"), ("24bit", "3:4"), ("32bit", "0:256"),
@@ -592,4 +708,4 @@ def run(ctx: Ctx):
             ctx.count("skipped-over-budget")
             continue
         check_case(ctx, c)
-        ctx.case(c, nontrivial=len(c["requests"]) >= 3)
+        ctx.case(c, nontrivial=(c.get("k") == "cli-stress" or len(c["requests"]) >= 3))
